@@ -8,7 +8,8 @@
             a model and whose get-value answers are the values of that model).
     Part D: least depth, for a solver whose "unsat" answers are right too (it may still say unknown or
             fail: then the result is not a Fail).
-    Part E: the shape of a witness; the solver of Model/BmcWit.v as an instance; the enumerating solver. *)
+    Part E: the shape of a witness; the enumerating solver.
+    Part F: the model of Model/BmcWit.v is an instance of the full model. *)
 From Coq Require Import List Bool Lia.
 From Patronus Require Import EvalImpl Encoding SysExec ReachSpec Witness Bmc BmcWit BmcWitFull ExprLemmas BVLemmas EvalProofs McBasics
      ScriptProofs EncodingBasics EncodingFaithful EncodingWf EncodingNew EncodingNames EncodingTheorems
@@ -564,3 +565,114 @@ Qed.
 
 Lemma enum_solver_sound (EM : Type) : solver_sound (enum_solver EM).
 Proof. apply lift_solver_sound. exact enum_model_sound. Qed.
+
+(** ** Part F: the model of Model/BmcWit.v is the instance [check_constraints = false], solver without
+    unknown / errors / faults ([lift_solver]) of the full model *)
+Section Instance.
+  Variable EM : Type.
+  Variable sm : list cmd -> list expr -> list expr -> option env.
+  Let sv := lift_solver EM sm.
+
+  Lemma assert_cons_lift en : forall cs k i acc,
+    assert_cons EM sv en cs k i acc = match signals_at en cs k with Some ss => WOk (acc ++ ss) | None => WPan end.
+  Proof.
+    induction cs as [|c r IH]; intros k i acc; cbn [assert_cons signals_at].
+    - now rewrite app_nil_r.
+    - destruct (get_signal_at en c k) as [s|]; [|reflexivity]. unfold sv at 1. cbn [sv_fault lift_solver]. fold sv.
+      rewrite IH. destruct (signals_at en r k); [now rewrite <- app_assoc|reflexivity].
+  Qed.
+
+  Lemma first_hit_lift en sc asserts : forall bads k i bs, signals_at en bads k = Some bs ->
+    first_hit EM sv en sc asserts bads k i =
+    match first_model sm sc asserts bs with Some m => HSat EM m | None => HNone EM end.
+  Proof.
+    induction bads as [|b r IH]; intros k i bs H; cbn [signals_at] in H.
+    - inversion H; subst. reflexivity.
+    - destruct (get_signal_at en b k) as [s|] eqn:Eg; [|discriminate].
+      destruct (signals_at en r k) as [bs'|] eqn:Er; [|discriminate]. inversion H; subst.
+      cbn [first_hit first_model]. rewrite Eg. unfold sv at 1. cbn [sv_check lift_solver].
+      destruct (sm sc asserts [s]); [reflexivity|]. unfold after_unsat. unfold sv at 1. cbn [sv_fault lift_solver]. fold sv.
+      now apply IH.
+  Qed.
+
+  Variable gv0 : expr -> val.
+  Let gv : expr -> gvres EM := fun s => GVal (gv0 s).
+
+  Lemma failed_lift en : forall bads k i,
+    failed_f EM en gv bads k i =
+    match signals_at en bads k with
+    | None => WPan
+    | Some bs => match failed_of gv0 bs i with Some l => WOk l | None => WPan end
+    end.
+  Proof.
+    induction bads as [|b r IH]; intros k i; cbn [failed_f signals_at]; [reflexivity|].
+    destruct (get_signal_at en b k) as [s|]; [|reflexivity]. unfold gv at 1.
+    destruct (gv0 s) as [x|a] eqn:Ev.
+    - rewrite IH. destruct (signals_at en r k) as [bs|]; cbn [wbind failed_of]; [|reflexivity].
+      rewrite Ev. destruct (failed_of gv0 bs (i + 1)); reflexivity.
+    - destruct (signals_at en r k) as [bs|]; [|reflexivity]. cbn [failed_of]. now rewrite Ev.
+  Qed.
+
+  Lemma values_lift en : forall syms k,
+    values_f EM en gv syms k =
+    match signals_at en syms k with None => WPan | Some ss => WOk (map (fun s => Some (gv0 s)) ss) end.
+  Proof.
+    induction syms as [|x r IH]; intros k; cbn [values_f signals_at]; [reflexivity|].
+    destruct (get_signal_at en x k) as [s|]; [|reflexivity]. unfold gv at 1. rewrite IH.
+    destruct (signals_at en r k); reflexivity.
+  Qed.
+
+  Lemma inputs_lift en : forall ks,
+    inputs_f EM en gv ks =
+    match inputs_at en ks with None => WPan | Some ins => WOk (map (map (fun s => Some (gv0 s))) ins) end.
+  Proof.
+    induction ks as [|k r IH]; cbn [inputs_f inputs_at]; [reflexivity|].
+    rewrite values_lift. destruct (signals_at en (s_inputs (e_sys en)) k); [|reflexivity]. cbn [wbind]. rewrite IH.
+    destruct (inputs_at en r); reflexivity.
+  Qed.
+
+  Lemma get_witness_lift en k :
+    get_witness_f EM en gv k = match get_witness en gv0 k with Some w => WOk w | None => WPan end.
+  Proof.
+    unfold get_witness_f, get_witness, witness_queries. rewrite failed_lift, values_lift, inputs_lift.
+    destruct (signals_at en (s_bads (e_sys en)) k) as [bs|]; [|reflexivity].
+    destruct (signals_at en (state_syms (e_sys en)) 0) as [ss|];
+      destruct (inputs_at en (range (k + 1))) as [ins|];
+      destruct (failed_of gv0 bs 0) as [l|]; reflexivity.
+  Qed.
+End Instance.
+
+Lemma loop_f_lift (EM : Type) sm en individually : s_bads (e_sys en) <> [] ->
+  forall fuel sc asserts k,
+    bmc_loop_w Fixed sm en individually sc asserts k fuel <> WPanic ->
+    bmc_loop_f EM Fixed (lift_solver EM sm) en false individually sc asserts k fuel =
+    lift_result EM (bmc_loop_w Fixed sm en individually sc asserts k fuel).
+Proof.
+  intros Hne. induction fuel as [|fuel IH]; intros sc asserts k; cbn [bmc_loop_f bmc_loop_w];
+    rewrite assert_cons_lift;
+    (destruct (signals_at en (s_constraints (e_sys en)) k) as [cs|]; [|intros H; now contradiction H]);
+    (destruct (signals_at en (s_bads (e_sys en)) k) as [bs|] eqn:Eb; [|intros H; now contradiction H]);
+    cbn [constraint_check app];
+    assert (Hor : or_all bs <> None)
+      by (destruct bs; [destruct (s_bads (e_sys en)); [now contradiction Hne|cbn [signals_at] in Eb;
+            destruct (get_signal_at en e k); [destruct (signals_at en l k)|]; discriminate]|discriminate]);
+    destruct individually.
+  all: try (rewrite (first_hit_lift EM sm en sc _ _ k 0%nat bs Eb); destruct (first_model sm sc (asserts ++ cs) bs) as [m|]).
+  all: try (unfold joint_hit; rewrite Eb; destruct (or_all bs) as [any|]; [|now contradiction Hor]; cbn [sv_check lift_solver];
+            destruct (sm sc (asserts ++ cs) [any]) as [m|]).
+  all: try (change (sv_value (lift_solver EM sm) sc m) with (fun s => @GVal EM (val_of (script_eval m sc) s));
+            rewrite (get_witness_lift EM (val_of (script_eval m sc)) en k);
+            destruct (get_witness en (val_of (script_eval m sc)) k); [reflexivity|intros H; now contradiction H]).
+  all: unfold after_unsat; cbn [sv_fault lift_solver]; intros H; try reflexivity.
+  all: apply IH; exact H.
+Qed.
+
+Theorem bmc_full_is_bmc_w (EM : Type) sm sy nm individually k_max : (k_max <= 2000)%nat ->
+  bmc_model_w sm sy nm individually k_max <> WPanic ->
+  bmc_model_full EM (lift_solver EM sm) sy nm false individually k_max = lift_result EM (bmc_model_w sm sy nm individually k_max).
+Proof.
+  intros Hk. unfold bmc_model_full, bmc_model_w.
+  assert (E : Nat.ltb 2000 k_max = false) by (apply PeanoNat.Nat.ltb_ge; exact Hk). rewrite E.
+  destruct (s_bads sy) as [|b0 r0] eqn:Eb; [reflexivity|]. cbn [sv_fault lift_solver].
+  apply loop_f_lift. change (e_sys (enc_new sy nm)) with sy. rewrite Eb. discriminate.
+Qed.
